@@ -779,10 +779,6 @@ func (s *Subscription) processModelEvent(event *rescache.ResourceEvent) {
 		for _, sub := range subs {
 			s.refs[sub.rid].pending = true
 		}
-		// The added references are not counted as sent until the event is
-		// sent. A resource also held through a replaced reference is marked
-		// as unsent by its removal, and sent again with the event.
-		removeOld()
 		for _, sub := range subs {
 			sub.OnReady(func() {
 				// Assert client is not disposed
@@ -797,6 +793,13 @@ func (s *Subscription) processModelEvent(event *rescache.ResourceEvent) {
 
 				verifSub("sub.event", s)
 				r := &rpc.Resources{}
+
+				// The replaced references are removed when the event is sent,
+				// not before, as the client holds what they refer to until
+				// then. The added references are not yet counted as sent: a
+				// resource also held through a replaced reference is marked
+				// as unsent by the removal, and sent again with the event.
+				removeOld()
 
 				// Legacy behavior
 				if s.c.ProtocolVersion() < versionSoftResourceReferenceAndDataValue {
